@@ -302,7 +302,7 @@ int *hops;
   pos = 0; flagmaybex = flagmaybey = flagmaybez = 1;
   for (;;) {
     substdio_get(&ssin,&ch,1);
-    if (flaginheader) {
+    if (flaginheader) if ((state != 1) || (ch != '.')) { /* a line's leading dot is not part of the stored line */
       if (pos < 9) {
         if (ch != "delivered"[pos]) if (ch != "DELIVERED"[pos]) flagmaybez = 0;
         if (flagmaybez) if (pos == 8) ++*hops;
